@@ -2,6 +2,7 @@ package parser
 
 import (
 	"regexp"
+	"strings"
 
 	"github.com/robertkrimen/otto/ast"
 	"github.com/robertkrimen/otto/file"
@@ -138,6 +139,14 @@ func (p *parser) parseRegExpLiteral() *ast.RegExpLiteral {
 		flags = p.literal
 		endOffset = p.chrOffset
 		p.next()
+	}
+
+	// flags other than g, i, m, or repeated ones, are an early error (ECMA-262 5.1 - 7.8.5, 15.10.4.1)
+	for i, flag := range flags {
+		if (flag != 'g' && flag != 'i' && flag != 'm') || strings.ContainsRune(flags[:i], flag) {
+			p.error(idx, "Invalid regular expression flags")
+			break
+		}
 	}
 
 	var value string
